@@ -88,12 +88,30 @@ def kidsLen (F : List PT) (a : Path) : Nat :=
   | some t => t.kids.length
   | none => 0
 
-def done (s' : St) (head : String) : St × String := (s', head ++ " | " ++ dumpF s'.forest)
+mutual
+/-- the addresses of all objects of a tree / a forest in pre-order -/
+def idsT : PT → List Nat
+  | .node i _ _ ks => i :: idsL ks
+def idsL : List PT → List Nat
+  | [] => []
+  | k :: ks => idsT k ++ idsL ks
+end
+
+/-- which objects survived the operation: for every object of the new forest (pre-order) the pre-order index the same object
+(same address) had before the operation, `n` for an object that did not exist; `=` if nothing moved -/
+def identStr (old new : List PT) : String :=
+  let o := idsL old
+  let n := idsL new
+  if o == n then "=" else
+    ",".intercalate (n.map fun i => match o.findIdx? (· == i) with | some k => toString k | none => "n")
+
+def done (s s' : St) (head : String) : St × String :=
+  (s', head ++ " | " ++ dumpF s'.forest ++ " @" ++ identStr s.forest s'.forest)
 
 def runOp (s : St) (op : Op) (head : String) : St × String :=
   if !op.guard then (s, "skip:misuse") else
   match step s op with
-  | .ok s' => done s' head
+  | .ok s' => done s s' head
   | .error e => (s, "fault:" ++ e.name)
 
 def mapFn (v : Int) : Int := 2 * v + 1
@@ -142,6 +160,18 @@ def obsAll (s : St) : String :=
       "cpos=" ++ ",".intercalate cp ++ " eq=" ++ ",".intercalate eqs
   s!"q obsall n={ps.length} | " ++ " | ".intercalate per ++ " || " ++ pairs
 
+/-- the object returned by `pop_front` / `pop_back` / `release`, as the caller sees it before doing anything with it -/
+def retStr (s : St) (a : Path) (pos : Pos) : String :=
+  match getF a s.forest with
+  | none => "?"
+  | some t =>
+    match pos.popIdx t.kids.length with
+    | some (some i) =>
+      match t.kids[i]? with
+      | some c => dumpT none (((moveCtor s.next c).1).setParent none)
+      | none => "?"
+    | _ => "none"
+
 def handle (s : St) (toks : List String) : St × String :=
   let F := s.forest
   let full := F.length ≥ maxRoots
@@ -181,8 +211,8 @@ def handle (s : St) (toks : List String) : St × String :=
         match v.toNat? with
         | some k =>
           let keep := k != 0 && !full
-          let r := if kidsLen F a == 0 then "none" else "some"
-          runOp s (.pop a (if cmd == "popb" then .back else .front) keep) s!"ok a={pa} {r}"
+          let pos : Pos := if cmd == "popb" then .back else .front
+          runOp s (.pop a pos keep) s!"ok a={pa} ret={retStr s a pos}"
         | none => (s, "bad-op")
       else if cmd == "erase" then
         match v.toNat? with
@@ -271,7 +301,7 @@ def handle (s : St) (toks : List String) : St × String :=
         match x.toNat?, y.toNat? with
         | some i, some k => if len == 0 then (s, "skip:empty") else
             let i := i % len
-            runOp s (.pop a (.at i) (k != 0 && !full)) s!"ok a={pa} i={i}"
+            runOp s (.pop a (.at i) (k != 0 && !full)) s!"ok a={pa} i={i} ret={retStr s a (.at i)}"
         | _, _ => (s, "bad-op")
       else if cmd == "insv" then
         match x.toNat?, sel F y with
